@@ -98,7 +98,44 @@ func (g gen) badBool() string {
 	return g.pick("2", "yes", "", "tru", "null", "-1")
 }
 func (g gen) smallNum() string { return g.pick("1", "2", "3", "5", "10", "20") }
+
+// structRaw names a structurally inconsistent transaction derived from base b ("" = any base)
+func (g gen) structRaw(b string) string {
+	if b == "" {
+		b = structBases[g.r.Intn(len(structBases))]
+	}
+	return "{raw." + b + "." + structMuts[g.r.Intn(len(structMuts))] + "}"
+}
+
+func (g gen) signIndexes(m map[string]interface{}) {
+	switch g.r.Intn(12) {
+	case 0, 1, 2:
+		// absent: sign everything that is unsigned
+	case 3:
+		m["sign_indexes"] = []interface{}{0}
+	case 4:
+		m["sign_indexes"] = []interface{}{0, 1}
+	case 5:
+		m["sign_indexes"] = []interface{}{1}
+	case 6:
+		m["sign_indexes"] = []interface{}{1, 0}
+	case 7:
+		m["sign_indexes"] = []interface{}{0, 0}
+	case 8:
+		m["sign_indexes"] = []interface{}{g.r.Intn(4), 2 + g.r.Intn(60)}
+	case 9:
+		m["sign_indexes"] = []interface{}{0, 1, 2, 3, 4, 5}
+	case 10:
+		m["sign_indexes"] = []interface{}{-1}
+	case 11:
+		m["sign_indexes"] = []interface{}{}
+	}
+}
+
 func (g gen) rawKind() string {
+	if g.r.Intn(2) == 0 {
+		return g.structRaw("")
+	}
 	return "{raw." + g.pick(append(append([]string{}, txnKinds...), "trunc", "odd", "flip", "w0unsigned", "w2unsigned")...) + "}"
 }
 func (g gen) seed() string {
@@ -426,6 +463,20 @@ var endpoints = map[string][]endpoint{
 	}}},
 	"/api/v2/wallet/transaction/sign": {{method: "POST", json: func(g gen) interface{} {
 		v, bad := g.value("raw")
+		if g.r.Intn(2) == 0 {
+			// the right (or a wrong / locked / missing) wallet for a structurally mutated transaction over its own unspents
+			b := g.pick("w0two", "w0two", "w1two", "w2one", "k3one")
+			wid := map[string]string{"w0two": "{wid0}", "w1two": "{wid1}", "w2one": "{wid2}", "k3one": "{wid0}"}[b]
+			if g.r.Intn(8) == 0 {
+				wid = g.pick("{wid0}", "{wid1}", "{wid2}", "unknown_wallet.wlt")
+			}
+			m := map[string]interface{}{"wallet_id": wid, "encoded_transaction": g.structRaw(b)}
+			if wid == "{wid1}" || g.r.Intn(10) == 0 {
+				m["password"] = g.pick("pw1", "pw1", "pw1", "wrong", "")
+			}
+			g.signIndexes(m)
+			return m
+		}
 		if g.r.Intn(3) == 0 {
 			// coherent: the wallet's own unsigned transaction
 			i := g.pick("0", "2")
